@@ -68,6 +68,8 @@ inductive UStmt
   | resliceD                            -- D = D[offset:]
   | ifWordCount (k : Nat) (body : List UStmt)
   | clear (f : String)                  -- c.F = []T{}
+  | zeroInt (f : String)                -- c.F = 0            (an optional field is reset before the word-count test)
+  | zeroInts (f : String) (n : Nat)     -- c.F = [n]T{0, …, 0}
   | makeInts (f g : String)             -- c.F = make([]T, c.G)
   | forCountInt (b : Blk) (w : Nat) (e : End) (f g : String)   -- for i < int(c.G) { c.F[i] = …; offset += w }
   | forRangeInt (b : Blk) (w : Nat) (e : End) (f : String)     -- for i := range c.F (fixed array)
@@ -395,6 +397,8 @@ def runUStmt (C : Codecs) (s : UState) : UStmt → Step UState
     liftO (fun st bs => { st with D := bs }) s (sliceFrom s.D s.offset)
   | .ifWordCount k body => if s.wordCount = k then runUStmts C s body else .next s
   | .clear f => .next { s with env := s.env.set f (.ts []) }
+  | .zeroInt f => .next { s with env := s.env.set f (.n 0) }
+  | .zeroInts f n => .next { s with env := s.env.set f (.ns (List.replicate n 0)) }
   | .makeInts f g =>
     match s.env.get g with
     | some (.n k) => .next { s with env := s.env.set f (.ns (List.replicate k 0)) }
